@@ -383,6 +383,26 @@ func c20GenDoc(t *rapid.T) c20Doc {
 		}
 	case 1: // raw bytes
 		g.b.WriteString(rapid.String().Draw(t, "raw"))
+	case 5: // macros defined in terms of the previous one: the value doubles with every line
+		n := rapid.SampledFrom([]int{4, 8, 16, 24, 32, 40}).Draw(t, "growth_lines")
+		instr := rapid.Bool().Draw(t, "growth_in_string")
+		g.b.WriteString("$(g0) = x y\n")
+		if instr {
+			g.b.Reset()
+			g.b.WriteString("$(g0) = xy\n")
+		}
+		for i := 1; i <= n; i++ {
+			if instr {
+				fmt.Fprintf(&g.b, "$(g%d) = p$(g%d)$(g%d)\n", i, i-1, i-1)
+			} else {
+				fmt.Fprintf(&g.b, "$(g%d) = $(g%d) $(g%d)\n", i, i-1, i-1)
+			}
+		}
+		if rapid.Bool().Draw(t, "growth_in_block") {
+			fmt.Fprintf(&g.b, "blk {\n  d $(g%d)\n}\n", n)
+		} else {
+			fmt.Fprintf(&g.b, "d $(g%d)\n", n)
+		}
 	case 4: // a macro defined in the first line and referenced in every way further down
 		name := g.pick("mdef1", c20Macros[:6])
 		g.b.WriteString("$(" + name + ") = " + g.pick("mval", []string{"value", "v1 v2", "\"quoted value\"", "a.b-c"}) + "\n")
@@ -480,6 +500,9 @@ func c20RunDoc(d c20Doc) []ev.V {
 func c20HangShape(src string) string {
 	if strings.Count(src, "import") >= 2 {
 		return "recursive-snippet-imports"
+	}
+	if strings.Count(src, "$(") >= 12 {
+		return "macros-defined-in-terms-of-macros"
 	}
 	return "other"
 }
